@@ -21,6 +21,16 @@ def cases(tier: str):
                     for seq in seq_menu(n):
                         for is_async in (False, True):
                             yield dict(n=n, es=es, res=res, mc=mc, seq=seq, is_async=is_async, ties=1 if q else None)
+    # max_concurrency reconfigured after the build (lowered and raised), by config_from_dict and by assignment
+    for n in (2, 3, 4):
+        for es in shapes(n):
+            if len(es) > 1:
+                continue
+            for res in ("t" * n, "a" * n, ("ta" * n)[:n]):
+                for build_mc, mc in ((3, 1), (3, 2), (4, 2), (1, 2), (1, 3), (2, 3)):
+                    for via in ("dict", "attr"):
+                        yield dict(n=n, es=es, res=res, mc=mc, reconf={"build_mc": build_mc, "mc": mc, "via": via}, seq=(False,) * n,
+                                   is_async=(n == 3), ties=0)
     n = 4
     for es in shapes(n):
         if q and len(es) > 3:
